@@ -72,6 +72,13 @@ class C07(Check):
                         for t in N3:
                             if s != t:
                                 js.append(dict(kind='path', topo=topo, s=s, t=t, style=style))
+        # a dense 5-node multigraph (three parallel edges, mixed orientations): most weights concrete, the parallel and two further
+        # weights symbolic, so that one search performs several decrease-key operations (priority-queue clean-up paths)
+        dense = [('n0', 'n1', 0), ('n1', 'n2', 0), ('n0', 'n1', 0), ('n0', 'n3', 1), ('n1', 'n2', 1), ('n1', 'n0', 0), ('n1', 'n3', 0), ('n1', 'n4', 0), ('n3', 'n2', 0)]
+        fixed = {1: 8.0, 3: 11.0, 4: 18.0, 6: 29.0, 7: 19.0}
+        N5 = ['n0', 'n1', 'n2', 'n3', 'n4']
+        for s, t in (('n1', 'n3'), ('n4', 'n2')) if tier == 'quick' else [(a, b) for a in N5 for b in N5 if a != b]:
+            js.append(dict(kind='path', topo=dense, s=s, t=t, style='plain', fixed=fixed))
         if tier == 'thorough':
             extra = []
             for _ in range(400):
@@ -88,8 +95,9 @@ class C07(Check):
     def path(self, ctx, job):
         eng = ctx.eng
         topo = [tuple(e) for e in job['topo']]
-        W = [eng.real('w%d' % i, 0, WMAX) for i in range(len(topo))]
-        Wz = [w.z for w in W]
+        fx = {int(k): v for k, v in (job.get('fixed') or {}).items()}
+        W = [fx[i] if i in fx else eng.real('w%d' % i, 0, 30 if fx else WMAX) for i in range(len(topo))]
+        Wz = [zreal(w) for w in W]
         nodes = _nodes(topo)
         style = job['style']
         net = netlib.build(topo, W, nodes, style)
@@ -132,7 +140,8 @@ class C07(Check):
 
     def concrete(self, job, inp):
         topo = [tuple(e) for e in job['topo']]
-        W = [float(inp['w%d' % i]) for i in range(len(topo))]
+        fx = {int(k): v for k, v in (job.get('fixed') or {}).items()}
+        W = [float(fx[i]) if i in fx else float(inp['w%d' % i]) for i in range(len(topo))]
         nodes = _nodes(topo)
         style = job['style']
         net = netlib.build(topo, W, nodes, style)
